@@ -120,6 +120,9 @@ func zzC02Run(st kvs.Storage, prePresent bool, key string) {
 	ops := make([]*zzOp, T)
 	for i := range ops {
 		ops[i] = &zzOp{kind: vChoose("kind", 6), val: byte(10 + i), done: make(chan struct{})}
+		if (vParam("KINDMASK")>>uint(ops[i].kind))&1 == 0 {
+			vAssume(false) // operation kind not in this entry's alphabet
+		}
 	}
 	for i := range ops {
 		o := ops[i]
